@@ -367,8 +367,8 @@ PROPS = {
         "static": [("", "c16.go")],
         "bounds": "data-source histories of 3 events from {packet (0..2 symbolic bytes, symbolic caplen/len relation), timeout error, transient error, EOF}; pull interface with copying and zero-copy sources; channel interface with a consumer goroutine and cancellation after any number of received packets (or never), all interleavings at channel/select granularity with <= 1 (quick) / 2 (thorough) preemptions; zero-copy + NoCopy guard",
         "outside": "the 1000-slot buffer filling up; wall-clock sleeps (time.Sleep is a scheduler yield)",
-        "quick": {"timeout": 900, "params": "verif_C16_chan:preempt=0..1"},
-        "thorough": {"timeout": 3000, "params": "verif_C16_chan:preempt=0..2"},
+        "quick": {"timeout": 900, "params": "verif_C16_(chan|cancel_idle):preempt=0..1", "steps": 300000},
+        "thorough": {"timeout": 3000, "params": "verif_C16_(chan|cancel_idle):preempt=0..2", "steps": 300000},
     },
     "C17": {
         "pkgs": [MOD, MOD + "/layers"],
@@ -392,8 +392,8 @@ PROPS = {
         "static": [("tcpassembly", "c10.go")],
         "bounds": "Sequence lemma over all 2^64 pairs (distance < 2^30); histories: SYN + k <= 2 (quick) / 3 (thorough) segments with symbolic offset 0..7 and length 0..3 into an 11-byte symbolic stream, fully symbolic 32-bit ISN, optional FIN, optional FlushOlderThan after each segment and final FlushAll, optional per-connection page limit 1",
         "outside": "longer histories, multi-page segments, both directions interleaved",
-        "quick": {"timeout": 900, "units": "verif_C10_(seq_lemma|hist2|hist2_flush)"},
-        "thorough": {"timeout": 3000},
+        "quick": {"timeout": 1200, "units": "verif_C10_(seq_lemma|hist2)"},
+        "thorough": {"timeout": 7000, "maxpaths": 40000, "partial_ok_all": True},
     },
     "C11": {
         "pkgs": [MOD + "/tcpassembly"],
